@@ -32,7 +32,9 @@ import (
 
 	agentconfig "github.com/andydunstall/piko/agent/config"
 	"github.com/andydunstall/piko/agent/reverseproxy"
+	"github.com/andydunstall/piko/pkg/auth"
 	"github.com/andydunstall/piko/pkg/log"
+	"github.com/golang-jwt/jwt/v5"
 	"github.com/andydunstall/piko/server/cluster"
 	"github.com/andydunstall/piko/server/config"
 	"github.com/andydunstall/piko/server/upstream"
@@ -84,6 +86,11 @@ type vhpxReqSpec struct {
 	Up   *vhpxUpSpec `json:"up"`
 	// Burst > 1: the request is sent Burst times at the same moment (same tag); every copy's status, stamp and time is recorded
 	Burst int `json:"burst"`
+	// auth clusters: the bearer token of the request lists these endpoints (hex; empty list = token without endpoint claim);
+	// NoToken: no token at all
+	TokenEps []string `json:"token_eps"`
+	NoToken  bool     `json:"no_token"`
+	XAuth    bool     `json:"xauth"` // the token travels in x-piko-authorization; Authorization carries the client's own credentials for the upstream
 	UpID string      `json:"up_id"`
 }
 
@@ -120,6 +127,7 @@ type vhpxClusterSpec struct {
 	// ViaAgent: every upstream is a real piko agent reverse proxy (agent/reverseproxy.Server) in front of the scripted
 	// service, as with `piko agent http`: client -> node(s) -> agent -> service
 	ViaAgent  bool           `json:"via_agent"`
+	Auth      bool           `json:"auth"` // the proxy ports verify HS256 tokens (secret vhpxSecret); requests carry token_eps
 	AgentIdle int            `json:"agent_idle"` // the agents' http-client max-idle-conns (0 = the harness default: unlimited)
 	ID        string         `json:"id"`
 	TimeoutMs int            `json:"timeout_ms"`
@@ -182,6 +190,24 @@ type vhpxClusterOut struct {
 }
 
 // ---------------------------------------------------------------- helpers
+
+const vhpxSecret = "vhpx-secret-key-0123456789"
+
+func vhpxToken(eps []string) string {
+	claims := jwt.MapClaims{"exp": time.Now().Add(time.Hour).Unix()}
+	if len(eps) > 0 {
+		l := []string{}
+		for _, e := range eps {
+			l = append(l, vhpxUnhex(e))
+		}
+		claims["piko"] = map[string]any{"endpoints": l}
+	}
+	tok, err := jwt.NewWithClaims(jwt.SigningMethodHS256, claims).SignedString([]byte(vhpxSecret))
+	if err != nil {
+		panic("vhpx: token: " + err.Error())
+	}
+	return tok
+}
 
 func vhpxHex(s string) string { return hex.EncodeToString([]byte(s)) }
 
@@ -717,7 +743,11 @@ func (c *vhpxCluster) run() {
 			conf.AccessLog.ResponseHeaders.BlockList = al.RespBlock
 			conf.AccessLog.ResponseHeaders.AllowList = al.RespAllow
 		}
-		srv := NewServer(mgr, conf, nil, nil, nil, log.NewNopLogger())
+		var verifier *auth.MultiTenantVerifier
+		if spec.Auth {
+			verifier = auth.NewMultiTenantVerifier(auth.NewJWTVerifier(&auth.LoadedConfig{HMACSecretKey: []byte(vhpxSecret)}), nil)
+		}
+		srv := NewServer(mgr, conf, nil, verifier, nil, log.NewNopLogger())
 		srv.httpServer.Handler = &vhpxCounting{c: c, idx: i, next: srv.httpServer.Handler}
 		c.mu.Lock()
 		c.servers = append(c.servers, srv)
@@ -889,6 +919,14 @@ func (c *vhpxCluster) doHTTP(addr string, rq *vhpxReqSpec, key string, out *vhpx
 		buf.WriteString(vhpxUnhex(kv[0]) + ": " + vhpxUnhex(kv[1]) + "\r\n")
 	}
 	buf.WriteString(vhpxReqHeader + ": " + key + "\r\n")
+	if c.spec.Auth && !rq.NoToken {
+		if rq.XAuth {
+			buf.WriteString("x-piko-authorization: Bearer " + vhpxToken(rq.TokenEps) + "\r\n")
+			buf.WriteString("Authorization: Basic dXNlcjpwYXNz\r\n")
+		} else {
+			buf.WriteString("Authorization: Bearer " + vhpxToken(rq.TokenEps) + "\r\n")
+		}
+	}
 	if len(body) > 0 || method == "POST" || method == "PUT" || method == "PATCH" {
 		if rq.ChunkedReq {
 			buf.WriteString("Transfer-Encoding: chunked\r\n\r\n")
